@@ -384,3 +384,25 @@ Definition run_points (s : state) (f : bytes) (inp : dict) : list state :=
         ((w_rem w, w_rk w) :: tr1 ++ tr2)
     ++ [dset f {| w_cache := inp; w_rem := fst e; w_rk := snd e |} s]
   end.
+
+(* ---------------------------------------------------------------- os.fork()
+   The child process starts with a copy of the parent's memory: the three dicts of _wn as they
+   are at the fork.  psutil registers no at-fork handler that touches them (checked on the source
+   by the generated table gen_fork_handlers), so fork is the identity on the wrap state, and the
+   two processes go on independently.  [FFork child]: the process forks and the child makes the
+   calls [child]; the parent continues with the rest of the list. *)
+Inductive fop := FCall (o : pop) | FFork (child : list pop).
+
+(* answers of the process itself, and the answers of each of its children (in fork order) *)
+Fixpoint ftrace (s : state) (ops : list fop) : list (outcome pobs) * list (list (outcome pobs)) :=
+  match ops with
+  | [] => ([], [])
+  | FCall o :: rest =>
+    match pstep false s o with
+    | Val (s', a) => let r := ftrace s' rest in (Val a :: fst r, snd r)
+    | Exc e => ([Exc e], [])
+    | OutOfModel => ([OutOfModel], [])
+    end
+  | FFork child :: rest =>
+    let r := ftrace s rest in (fst r, ptrace false s child :: snd r)
+  end.
